@@ -1,15 +1,14 @@
 import Ogen.JsonEqualEquiv_proof
 import Ogen.JsonNumberLadder_proof
+import Ogen.JsonEqualModel
 /-! C18, assembled: the model of `json.Equal` (after D2/D12) on ASTs whose numbers are spellings. -/
 namespace JEqFinal
 open JEqG JEqNum
 
-abbrev Json := J Spell
 /-- the texts the theorem speaks about: unique member names, numbers in the JSON grammar (no leading zeros) -/
 abbrev WFJ : Json → Prop := WF WFS
 /-- "denote the same JSON value": arrays pointwise, objects as unordered maps, numbers by rational value -/
 abbrev SameValue : Json → Json → Prop := Same (fun x y => valS x = valS y)
-def jsonEqual (a b : Json) : Bool := equal numEqS a b
 
 /-- **C18 `eq_iff`** -/
 theorem eq_iff (a b : Json) (ha : WFJ a) (hb : WFJ b) : jsonEqual a b = true ↔ SameValue a b :=
